@@ -231,6 +231,8 @@ func (c *twistPoint) Mul(a *twistPoint, scalar *big.Int, pool *bnPool) *twistPoi
 // c to 0 : 1 : 0.
 func (c *twistPoint) MakeAffine(pool *bnPool) *twistPoint {
 	if c.z.IsOne() {
+		// Negative leaves t = 0; an affine point must carry t = z² = 1 (the Miller loop reads it).
+		c.t.SetOne()
 		return c
 	}
 	if c.IsInfinity() {
